@@ -525,7 +525,7 @@ theorem QInv_worker {i : SInput} {s : CSt} (h : QInv i s) (w : Nat) (hw : w < s.
         cases a with
         | put x =>
           have hx : x.owner = w' := (h.goodT w' hwn).2 x (by simp [todoItems, hwpc, stepItems_cons_put])
-          simp [projQ_append, stepItems_cons_put, projQ, hx]
+          simp [stepItems_cons_put, projQ, hx]
         | acq => simp [stepItems]
         | rel => simp [stepItems]
         | call c r => simp [stepItems]
@@ -535,7 +535,7 @@ theorem QInv_worker {i : SInput} {s : CSt} (h : QInv i s) (w : Nat) (hw : w < s.
         | put x =>
           have hx : x.owner = w := (h.goodT w hwn).2 x (by simp [todoItems, hwpc, stepItems_cons_put])
           have : (x.owner == w') = false := by simp [hx]; exact fun hc => hww hc.symm
-          simp [projQ_append, projQ, this]
+          simp [projQ, this]
         | acq => rfl
         | rel => rfl
         | call c r => rfl
@@ -568,7 +568,7 @@ theorem QInv_worker {i : SInput} {s : CSt} (h : QInv i s) (w : Nat) (hw : w < s.
       | call c r => exact h.qowner x hx
     · show stepItems (((stepThread s.base (w + 1)).pcs[0]?).getD []) = []
       rw [hpcs]
-      simp [List.getElem?_set]
+      simp
       exact h.main_noput
     · intro w'; rw [hT _ hb]; exact h.reg_iff w'
     · intro w' hw'; rw [hT _ hb]; exact h.joined_iff w' hw'
@@ -1303,7 +1303,7 @@ theorem exists_enabledC {i : SInput} {s : CSt} (hq : QInv i s) (hb : BI i s) (hn
       have hpc : ∃ a rest, s.base.pcs[w + 1]? = some (a :: rest) := by
         unfold workerDone at hw2
         cases hp : s.base.pcs[w + 1]? with
-        | none => simp [List.getElem?_eq_none_iff] at hp; omega
+        | none => simp at hp; omega
         | some x =>
           cases x with
           | nil => simp [hp] at hw2
@@ -1740,7 +1740,7 @@ theorem todoItems_workerStep {i : SInput} {s : CSt} (h : QInv i s) (w : Nat) (hw
       cases a with
       | put x =>
         have hx : x.owner = w' := (h.goodT w' hwn).2 x (by simp [todoItems, hwpc, stepItems_cons_put])
-        simp [projQ_append, stepItems_cons_put, projQ, hx]
+        simp [stepItems_cons_put, projQ, hx]
       | acq => simp [stepItems]
       | rel => simp [stepItems]
       | call c r => simp [stepItems]
@@ -1753,7 +1753,7 @@ theorem todoItems_workerStep {i : SInput} {s : CSt} (h : QInv i s) (w : Nat) (hw
       | put x =>
         have hx : x.owner = w := (h.goodT w hwn).2 x (by simp [todoItems, hwpc, stepItems_cons_put])
         have : (x.owner == w') = false := by simp [hx]; exact fun hc => hww hc.symm
-        simp [projQ_append, projQ, this]
+        simp [projQ, this]
       | acq => rfl
       | rel => rfl
       | call c r => rfl
